@@ -16,6 +16,10 @@ C34 driver (stateful).  Case lines `<op> <args…>\t<impl-output>`:
   qnew <num> <den> <burst> <maxEntries>           NewQuota(eps = num/den, burst, maxEntries)
   qblk <t> <texthex> <parsed16|nil>               Blocked at (nominal) time t; spec: per-group bucket, while no
                                                   eviction can have happened (distinct groups ≤ maxEntries)
+  qconc 0 1 <burst> <maxEntries> <workers> <per> <rounds> <witnessgrouphex|-> <witnessAllowed>
+                                                  rate 0; per round `workers` goroutines hit one FRESH group at once with `per`
+                                                  attempts each; impl `min=<a> max=<b>` of allowed-per-group over the rounds;
+                                                  spec: max ≤ burst (the witness group is the replay input)
   qrt <num> <den> <burst> <attempts> <allowed> <elapsedNs>   real-time run on one group: spec only,
                                                   allowed ≤ burst + rate × elapsed (+1 token slack for float rounding)
 -/
@@ -135,6 +139,18 @@ def step (s : St) (c : Case) : St × String × String :=
         ({ s with cache, spec, groups }, if blocked then "1" else "0",
          if applies then (if c.impl = (if want then "1" else "0") then "ok" else "viol:quota") else "-")
     | _, _ => (s, "bad-op", "-")
+  | "qconc", [_, _, burst, _, workers, per, _, _, _] =>
+    match burst.toNat?, workers.toNat?, per.toNat? with
+    | some burst, some workers, some per =>
+      -- rate 0, one fresh group per round, `workers * per` concurrent attempts: every linearisation of the
+      -- atomic get-or-create + Allow lets exactly min(attempts, burst) through (Props.concurrent_first_contact_bound)
+      let e := min (workers * per) burst
+      let maxA := match c.impl.splitOn " max=" with | [_, m] => m.toNat? | _ => none
+      (s, s!"min={e} max={e}",
+       match maxA with
+       | some m => if m ≤ burst then "ok" else "viol:quota-concurrent-overadmit"
+       | none => "viol:quota-concurrent-overadmit")
+    | _, _, _ => (s, "bad-op", "-")
   | "qrt", [num, den, burst, _, allowed, elapsed] =>
     match num.toNat?, den.toNat?, burst.toNat?, allowed.toNat?, elapsed.toNat? with
     | some num, some den, some burst, some allowed, some elapsed =>
